@@ -71,6 +71,16 @@ func startScopeServer(c *Ctx, sw *ScopeWS, tag string) (*Workspace, *Server, err
 	return ws, srv, nil
 }
 
+// longSession: rounds of an unsaved edit followed by a save that puts the text on disk back in force (the file on disk never
+// changes) - what a long editing session leaves behind in the server's caches of unsaved documents.
+func longSession(srv *Server, ws *Workspace, rel, diskText string, rounds int) error {
+	for k := 0; k < rounds; k++ {
+		srv.DidChangeFull(ws.URI(rel), 1000+k, diskText+fmt.Sprintf("\n-- edit %d\n", k))
+		srv.DidSave(ws.URI(rel), diskText)
+	}
+	return srv.Fence()
+}
+
 // lazyOpen opens the document of f now if the workspace is one whose documents are opened on first use.
 func lazyOpen(srv *Server, ws *Workspace, sw *ScopeWS, f *SFile) {
 	if sw.LazyOpen {
